@@ -23,6 +23,15 @@ func probe(env *core.Env, args []string) int {
 		return 2
 	}
 	fmt.Println("shared node + trunk", time.Since(t0))
+	for seq := int64(1); seq <= 6; seq++ {
+		d, sz, err := n.chain.GetStore().LoadBlockBySequence(seq)
+		if err != nil {
+			fmt.Println(err)
+			return 2
+		}
+		h, _ := n.chain.GetStore().GetBlockHeaderByHash(d.Block.Hash(n.cfg))
+		fmt.Println("seq", seq, "txs", len(d.Block.Txs), "stored detail size", sz, "factory-side size", detailSize(d), "header size", h.Size())
+	}
 	t0 = time.Now()
 	ts := readTaskStates()
 	fmt.Println("task states", ts, time.Since(t0))
